@@ -244,7 +244,7 @@ def compactOn (eq : α → α → Bool) (st : CompactSt σ α) (s' : σ) (r : SS
           { inner := s', first := if stCompactClearsFirst then false else true, prev := setPrev })
       else
         match st.prev with
-        | some p => if !eq p a then (ret (stCompactItemRet k) (.item a) .bogus, { st with inner := s', prev := setPrev })
+        | some p => if stCompactKeeps eq p a then (ret (stCompactItemRet k) (.item a) .bogus, { st with inner := s', prev := setPrev })
                     else (.skip, { st with inner := s' })
         | none => (ret (stCompactItemRet k) (.item a) .bogus, { st with inner := s', prev := setPrev })
     | _ => (.err .bogus, { st with inner := s' })
@@ -278,8 +278,7 @@ def filterOn (keep : α → Except Err Bool) (s' : σ) (r : SStep α) : SStep α
       if stFilterCbGuard (cbCode (keep a)) then
         (retE (stFilterCbRet (cbCode (keep a))) (match keep a with | .error e => e | .ok _ => .bogus), ⟨s'⟩)
       else match keep a with
-        | .ok true => (ret (stFilterItemRet 0) (.item a) .bogus, ⟨s'⟩)
-        | .ok false => (.skip, ⟨s'⟩)
+        | .ok b => if stFilterKeeps b then (ret (stFilterItemRet 0) (.item a) .bogus, ⟨s'⟩) else (.skip, ⟨s'⟩)
         | .error _ => (.err .bogus, ⟨s'⟩)
     | _ => (.err .bogus, ⟨s'⟩)
 
@@ -396,9 +395,12 @@ def flattenSlicesOn (st : FlattenSlicesSt σ α) (s' : σ) (r : SStep (List α))
 
 def flattenSlices (m : SM σ (List α)) : SM (FlattenSlicesSt σ α) α :=
   ⟨fun st c =>
-    match st.buffer with
-    | a :: r => (ret (stFlattenSlicesItemRet 0) (.item a) .bogus, { st with buffer := r })
-    | [] =>
+    -- `if len(s.buffer) > 0 { item := s.buffer[0]; s.buffer = s.buffer[1:]; return item, nil }`
+    if stFlattenSlicesHas (st.buffer.length : Int) then
+      match st.buffer[stFlattenSlicesHead.toNat]? with
+      | some a => (ret (stFlattenSlicesItemRet 0) (.item a) .bogus, { st with buffer := st.buffer.drop stFlattenSlicesRest.toNat })
+      | none => (.err .bogus, st)
+    else
       match m.step st.inner c with
       | (.skip, s') => (.skip, { st with inner := s' })
       | (r, s') => flattenSlicesOn st s' r,
@@ -429,12 +431,15 @@ def joinCloseAll : Bool :=
 
 def join (m : SM σ α) : SM (JoinSt σ) α :=
   ⟨fun st c =>
-    match st.remaining with
-    | [] => (retE (stJoinDoneRet 0) .bogus, st)
-    | s :: r =>
-      match m.step s c with
-      | (.skip, s') => (.skip, { st with remaining := s' :: r })
-      | (x, s') => joinOn m st s' r x,
+    -- `for len(s.remaining) > 0 { … }; return zero, End`
+    if stJoinLoops (st.remaining.length : Int) then
+      match st.remaining with
+      | [] => (retE (stJoinDoneRet 0) .bogus, st)
+      | s :: r =>
+        match m.step s c with
+        | (.skip, s') => (.skip, { st with remaining := s' :: r })
+        | (x, s') => joinOn m st s' r x
+    else (retE (stJoinDoneRet 0) .bogus, st),
    fun st => if joinCloseAll then { st with remaining := st.remaining.map m.close } else st⟩
 
 structure WhileSt (σ : Type u) (α : Type v) where
@@ -448,8 +453,9 @@ def whileEval (f : α → Except Err Bool) (st : WhileSt σ α) (a : α) : SStep
   if stWhileCbGuard (cbCode (f a)) then
     (retE (stWhileCbRet (cbCode (f a))) (match f a with | .error e => e | .ok _ => .bogus), st)
   else match f a with
-    | .ok false => (retE (stWhileStopRet 0) .bogus, { st with done := if stWhileSetsDone then true else st.done })
-    | .ok true => (ret (stWhileItemRet 0) (.item a) .bogus, { st with held := if stWhileClearsHas then none else st.held })
+    | .ok b =>
+      if stWhileStops b then (retE (stWhileStopRet 0) .bogus, { st with done := if stWhileSetsDone then true else st.done })
+      else (ret (stWhileItemRet 0) (.item a) .bogus, { st with held := if stWhileClearsHas then none else st.held })
     | .error _ => (.err .bogus, st)
 
 /-- `whileStream.Next`, nothing held, after its pull answered `r`: `err != nil` → `return zero, err` -/
@@ -493,7 +499,7 @@ def runsInnerOn (same : α → α → Bool) (m : SM σ α) (st : RunsSt σ α) (
   else if stRunsInnerErrGuard k then (retE (stRunsInnerErrRet k) r.held, { st with pk := pk' })
   else match r with
     | .item a =>
-      if !same prev a then (retE (stRunsInnerOtherRet k) .bogus, { st with pk := pk' })
+      if stRunsInnerStops same prev a then (retE (stRunsInnerOtherRet k) .bogus, { st with pk := pk' })
       else
         let (r, pk'') := peekNext m pk' c
         (r, { st with pk := pk'', live := some (g', if stRunsInnerTracksPrev then a else prev, det) })
@@ -676,19 +682,19 @@ def lastLoop (m : SM σ α) (n : Int) (c : Bool) :
         | _ => (.error .bogus, s')
 
 def lastFinish (buf : List (Option α)) (i n : Int) : ROut (List (Option α)) :=
-  if stLastShort i n then rret (stLastShortRet 0) (.ok (buf.take i.toNat)) .bogus
+  if stLastShort i n then rret (stLastShortRet 0) (.ok (buf.take (stLastTake i n 0).toNat)) .bogus
   else if stLastRotGuard n then
     if n = 0 then .panic
     else
       let idx := stLastIdx i n
       let out : List (Option α) := List.replicate n.toNat none
-      let a := buf.drop idx.toNat
+      let a := buf.drop (stLastFrom i n idx).toNat
       let out := a ++ out.drop a.length
       let split := stLastSplit n idx
       if split < 0 || split > n then .panic
       else
         let k := split.toNat
-        let b := buf.take idx.toNat
+        let b := buf.take (stLastUpto i n idx).toNat
         rret (stLastRet 0) (.ok ((out.take k ++ b ++ out.drop (k + b.length)).take n.toNat)) .bogus
   else rret (stLastRet 0) (.ok (List.replicate n.toNat none)) .bogus
 
